@@ -209,6 +209,75 @@ def gen_case(rng, k, idx, nops=None):
     return lines
 
 
+def _synth_layout(topo):
+    """-> (number of PUs, {type name: PUs per object}) for the synthetic strings used here
+    (objects of a level are numbered left to right, PUs of object i are [i*w, (i+1)*w))"""
+    ar = [(t.split(":")[0], int(t.split(":")[1])) for t in topo.split()]
+    width = {}
+    w = 1
+    for name, n in reversed(ar):
+        width[name] = w
+        w *= n
+    return w, width
+
+
+def gen_follow_case(rng, k):
+    """the history class 'structure over mixed (or equal) types, restrict that removes an object
+    which is not last, refresh, then a second re-resolution (restrict / dup / export-import), get':
+    the identity arrays (indexes, different_types) must have been compacted consistently"""
+    topo = rng.choice(["numa:4 core:2 pu:2", "pack:2 numa:2 core:2 pu:1", "pack:2 l3:2 core:2 pu:2", "numa:2 pack:2 core:2 pu:1"])
+    npu, width = _synth_layout(topo)
+    tnum = {"core": k.CORE, "pu": k.PU, "pack": k.PACKAGE, "l3": k.L3}
+    avail = [n for n in ("core", "pu", "pack", "l3") if n in width]
+    mixed = rng.random() < 0.8
+    names = rng.sample(avail, min(len(avail), rng.choice([2, 3]))) if mixed else [rng.choice(["core", "pu"])]
+    nb = rng.choice([3, 4, 4, 5, 6])
+    # pick objects with pairwise disjoint PU ranges so that removing one keeps the others
+    chosen, used = [], set()
+    tries = 0
+    while len(chosen) < nb and tries < 200:
+        tries += 1
+        n = rng.choice(names)
+        cnt = npu // width[n]
+        i = rng.randrange(cnt)
+        pus = set(range(i * width[n], (i + 1) * width[n]))
+        if pus & used:
+            continue
+        used |= pus
+        chosen.append((n, i, pus))
+    nb = len(chosen)
+    if nb < 3:
+        return ["topo " + topo]
+    lines = ["topo " + topo]
+    kind = rng.choice([1, 2]) | rng.choice([4, 8, 32])
+    lines.append("create 0 mixed %d 0" % kind)
+    lines.append("values 0 0 %d %s %s" % (nb, " ".join("%d:%d" % (tnum[n], i) for n, i, _ in chosen),
+                                          " ".join(str(100 * (i // nb + 1) + i % nb) for i in range(nb * nb))))
+    lines.append("commit 0 0")
+    full = (1 << npu) - 1
+    victim = rng.randrange(0, nb - 1)          # never the last one
+    mask = full
+    for pu in chosen[victim][2]:
+        mask &= ~(1 << pu)
+    lines.append("restrict 0x%x 0" % mask)
+    lines.append(rng.choice(["get all 0 0 0 8", "get all 0 0 0 8", "refresh", "get name mixed 0 0 2"]))
+    for _ in range(rng.choice([1, 1, 2])):
+        ev = rng.choice(["restrict-nothing", "restrict-other", "dup", "xml", "dup", "restrict-nothing"])
+        if ev == "restrict-nothing":
+            lines.append("restrict 0x%x 0" % mask)
+        elif ev == "restrict-other":
+            others = [c for j, c in enumerate(chosen) if j != victim]
+            if len(others) > 2:
+                v2 = rng.choice(others[:-1])
+                for pu in v2[2]:
+                    mask &= ~(1 << pu)
+            lines.append("restrict 0x%x 0" % mask)
+        else:
+            lines.append(ev)
+        lines.append("get all 0 0 0 8")
+    return lines
+
+
 def boundary_cases(rng, k):
     """enumerated boundaries: every kind word, array sizes around the number of
     matches, every single-NULL position, heterogeneous through XML"""
@@ -327,7 +396,7 @@ def parse_list(s):
 
 
 D_RE = re.compile(r"D id=(\d+) name=(\S+) kind=(\d+) ut=(\d+) nb=(\d+) valid=(\d) idx=(\[[^\]]*\]) dt=(\[[^\]]*\]|-) objs=(\[[^\]]*\]|-) vals=(\[[^\]]*\])$")
-H_RE = re.compile(r"H (\d+) id=(\d+) name=(\S+) nb=(\d+) kind=(\d+) objs=(\[[^\]]*\]) vals=(\[[^\]]*\])$")
+H_RE = re.compile(r"H (\d+) id=(\d+|\?) name=(\S+) nb=(\d+) kind=(\d+) objs=(\[[^\]]*\]) vals=(\[[^\]]*\])$")
 
 
 def parse_D(l):
@@ -343,7 +412,7 @@ def parse_H(l):
     m = H_RE.match(l)
     if not m:
         return None
-    return {"slot": int(m.group(1)), "id": int(m.group(2)), "name": m.group(3), "nb": int(m.group(4)), "kind": int(m.group(5)),
+    return {"slot": int(m.group(1)), "id": None if m.group(2) == "?" else int(m.group(2)), "name": m.group(3), "nb": int(m.group(4)), "kind": int(m.group(5)),
             "objs": parse_list(m.group(6)), "vals": [int(x) for x in parse_list(m.group(7))]}
 
 
@@ -445,11 +514,28 @@ class Oracle:
     def unique_type(self, e):
         return e["ut"]
 
+    def check_follow(self, cmd, ds):
+        exp = self.exp
+        if not self.stale:
+            # "it follows the objects": a structure with >= 2 surviving objects is neither dropped nor shrunk
+            for e in exp:
+                d = next((x for x in ds if x["id"] == e["id"]), None)
+                want_objs = ["%d:%d" % (o[0], o[1]) for o in e["objs"]]
+                if d is None:
+                    raise Violation("spec:structure-dropped-with-survivors",
+                                    "after %r the structure id=%d name=%s is gone although %d of its objects are still in the topology (%r)" % (
+                                        cmd, e["id"], e["name"], len(want_objs), want_objs))
+                if d["nb"] < len(want_objs):
+                    raise Violation("spec:structure-shrunk-with-survivors",
+                                    "after %r the structure id=%d name=%s has %d object(s) %r although %d of its objects are still in the topology (%r)" % (
+                                        cmd, e["id"], e["name"], d["nb"], d["objs"], len(want_objs), want_objs))
+
     def check_dump(self, cmd, res):
         ds = [parse_D(l) for l in res if l.startswith("D ")]
         if any(d is None for d in ds):
             raise Violation("spec:unparsable-dump", "cannot parse a D line after %r" % cmd)
         exp = self.exp
+        self.check_follow(cmd, ds)
         if len(ds) != len(exp) and not self.stale:
             raise Violation("spec:list-length:" + cmd.split()[0],
                             "after %r the topology holds %d distances structures, the specification says %d" % (cmd, len(ds), len(exp)))
@@ -556,6 +642,7 @@ class Oracle:
                 raise Violation("spec:get-validation", "%r %s" % (cmd, "succeeded" if ok else "failed"))
             if ok:
                 self.do_refresh()
+                self.check_follow(cmd, [d for d in (parse_D(l) for l in res if l.startswith("D ")) if d])
                 want = []
                 for e in self.exp:
                     ek = self.exp_kind(e)
@@ -576,6 +663,7 @@ class Oracle:
                 for l in hs:
                     p = parse_H(l)
                     got_ids.append(p["id"] if p else l.split()[2])
+                idknown = all(g is not None for g in got_ids)
                 if mode == "name" and nrout != len(want):
                     complete = [e for e in want if (self.exp_kind(e) & k.FROM_ALL) and (self.exp_kind(e) & k.VALUE_ALL)]
                     if nrout == len(complete):
@@ -591,10 +679,10 @@ class Oracle:
                         e = want[i]
                         p = parse_H(l)
                         wobjs = ["%d:%d" % (o[0], o[1]) for o in e["objs"]]
-                        if not p or p["id"] != e["id"] or p["name"] != e["name"] or p["kind"] != self.exp_kind(e) or p["objs"] != wobjs or p["vals"] != e["vals"] or p["nb"] != len(wobjs):
+                        if not p or (p["id"] is not None and p["id"] != e["id"]) or p["name"] != e["name"] or p["kind"] != self.exp_kind(e) or p["objs"] != wobjs or p["vals"] != e["vals"] or p["nb"] != len(wobjs):
                             raise Violation("spec:get-returned", "%r slot %d is %r, expected id=%d name=%s kind=%d objs=%r vals=%r" % (
                                 cmd, i, l, e["id"], e["name"], self.exp_kind(e), wobjs, e["vals"]))
-                        self.held[i] = {"id": p["id"], "nb": p["nb"], "kind": p["kind"], "objs": list(p["objs"]), "vals": list(p["vals"])}
+                        self.held[i] = {"id": e["id"], "nb": p["nb"], "kind": p["kind"], "objs": list(p["objs"]), "vals": list(p["vals"])}
                     elif not l.endswith(" NULL"):
                         raise Violation("spec:get-null-fill", "%r slot %d is not NULL: %r" % (cmd, i, l))
         elif op == "release":
